@@ -142,3 +142,16 @@ def pick(v, lo, hi):
             return k
     from crosshair.util import IgnoreAttempt
     raise IgnoreAttempt('pick out of range')
+
+
+def pick_from(v, values):
+    """Like pick() for an explicit list of admissible values."""
+    if MODE != 'symbolic':
+        if v not in values:
+            raise Skip()
+        return v
+    for k in values:
+        if v == k:
+            return k
+    from crosshair.util import IgnoreAttempt
+    raise IgnoreAttempt('pick_from: not admissible')
